@@ -1272,7 +1272,14 @@ impl Value {
         let new_fields = fields
             .iter()
             .map(|field| {
-                let value = match items.remove(&field.name) {
+                // Fields are matched by name, and after that by the aliases of the reader's field
+                let written = items.remove(&field.name).or_else(|| {
+                    field
+                        .aliases
+                        .iter()
+                        .find_map(|alias| items.remove(alias))
+                });
+                let value = match written {
                     Some(value) => value,
                     None => match field.default {
                         Some(ref value) => match field.schema {
